@@ -59,6 +59,39 @@ CLAIMED = {
             'numpy.linalg.lstsq replaced by an exact rational solve; '
             'centroid_1dg/2dg fits not covered; floats as reals',
             TECH),
+    'C14': ('3/C14',
+            'find_peaks (unmodified, scipy maximum_filter replaced by its '
+            'definition on symbolic values): for all NaN-extended symbolic '
+            'images up to 2x3/3x2 (thorough 3x3), scalar or 2-D thresholds '
+            'of either sign, masks, border widths incl. 0 and asymmetric, '
+            'box/footprint shapes and npeaks, the returned set is exactly '
+            'the unmasked, non-border, finite pixels above threshold that '
+            'equal their in-image neighbourhood maximum, top-npeaks by '
+            'value, ids 1..N, None+warning iff empty; centroid_func '
+            'receives each peak cutout. Star finders: the real '
+            'apply_all_filters of DAO/IRAF/StarFinder catalogs on symbolic '
+            'statistics keeps exactly the finite, inclusive-in-bounds, '
+            '<=peakmax sources, N brightest, ids 1..N; _find_stars derives '
+            'footprint and (ny,nx) border from kernel/min_separation.',
+            'maximum_filter stub (definition); constant images excluded '
+            '(documented None); statistics formulas themselves not covered',
+            TECH),
+    'C05': ('3/C05',
+            'Solver-enumerated histories (0-2 attribute reads, then a '
+            'mutator with every in-range argument combination; 2 mutators in '
+            'the reduced/thorough tiers) over a pool of 8 start states incl. '
+            'a real deblend result: after every step the array equals the '
+            'set-theoretic reference (dtype kept, relabel => 1..N, width 0 '
+            'removes nothing, invalid labels raise), every derived '
+            'attribute equals that of a fresh SegmentationImage, one '
+            'segment/polygon per label, and deblend bookkeeping names only '
+            'present labels.',
+            'finite-domain exploration driven by the solver (all-SAT), label '
+            'arrays are concrete pool members; reference model in '
+            'vf/props/c05.py',
+            'solver-enumerated bounded histories (z3 all-SAT over finite '
+            'operation/argument/read variables) executed on the real class '
+            'and compared with a reference model and a fresh object'),
 }
 
 NOT_YET = {}
